@@ -1107,7 +1107,7 @@ func (env *SpecEnv) havocArrayRange(post *State, base Term, et types.Type, lo, h
 				}
 				name := ex.fieldHeapName(f)
 				h := ex.heap(post, name, arrSort(SRef, fs))
-				nh := ex.cx.fresh("hm", h.Sort)
+				nh := ex.freshHeap("hm_", name, h.Sort)
 				ex.cx.assume(Term{fmt.Sprintf("(forall ((r!z Ref)) (! (=> (not (and ((_ is elem) r!z) (= (ebase r!z) %s))) (= (select %s r!z) (select %s r!z))) :pattern ((select %s r!z))))", base.S, nh.S, h.S, nh.S), SBool})
 				ex.setHeap(post, name, nh)
 			}
